@@ -623,9 +623,14 @@ _OL_START = re.compile(rb"^\d{1,9}[.)]([ \t]|$)")
 
 
 def _line_starts(case, toks):
-    """some line of C1 starts (after the container prefix) with one of the block-start tokens"""
+    """some line of C1 that wrapping produced (it is not a line of the output at width 0) starts, after the
+    container prefix, with one of the block-start tokens"""
     ls = c1_lines(case)
+    w0 = case.w0().bytes_of("c1") if case.opts.get("width") else None
+    unwrapped = set((w0 or b"").split(b"\n"))
     for i, l in enumerate(ls):
+        if l in unwrapped:
+            continue
         s = l.lstrip(b"> ")
         for t in toks:
             if t == b"<":
@@ -953,10 +958,11 @@ def p_entity_in_url_or_title(case):
 
 
 def p_info_unescaped(case):
-    """a fenced code block's info string holds a newline, a backslash escape or an entity: it is written raw"""
+    """a fenced code block's info string holds a line ending (LF or CR, from a numeric entity), a backslash escape
+    or an entity: it is written raw"""
     for c in case.nodes("CodeBlock"):
         info = c.lit(4)
-        if b"\n" in info or _BS_PUNCT.search(info) or _ENTITY.search(info):
+        if b"\n" in info or b"\r" in info or _BS_PUNCT.search(info) or _ENTITY.search(info):
             return True
     return False
 
@@ -1167,11 +1173,16 @@ def under_node(n, a):
     return any(x is a for x in n.ancestors())
 
 
-def p_title_newline_space(case):
-    """a link or image title holds a newline followed by a space or tab (a lazy continuation line keeps its
-    indentation): the Title mode of outc pushes the newline without setting begin_line, the spaces then sit at
-    the start of an output line, where the next parse strips them as indentation of the container"""
-    return any(re.search(rb"\n[ \t]", l.lit(1)) for l in case.nodes(("Link", "Image")))
+def p_title_multiline(case):
+    """a link or image title spans lines and a continuation line starts with a space or tab (a lazy continuation
+    line keeps its indentation) or like a block (`* `, `>`, an HTML block of start conditions 1-6 ...): the Title
+    mode of outc pushes the newline as an ordinary byte (no begin_line, no prefix, no escaping of what follows), so
+    the spaces are stripped as indentation on re-parse, or the block marker interrupts the paragraph"""
+    for l in case.nodes(("Link", "Image")):
+        for ln in l.lit(1).split(b"\n")[1:]:
+            if ln[:1] in (b" ", b"\t") or _BLOCK_START.match(ln) or _HTML_BLOCK_START_1_6.match(ln):
+                return True
+    return False
 
 
 def p_tight_item_para_then_indented_code(case):
@@ -1313,6 +1324,25 @@ def shrink_case(r, fail, ask, budget=400):
     return run(d, o)
 
 
+_JOB_PROC = None
+
+
+def _shrink_job(job):
+    """worker of the shrinking pool: (prop, doc, opts, deadline) -> shrunk (doc, opts), or (None, None) past the deadline"""
+    global _JOB_PROC
+    import time
+    prop, doc, opts, deadline = job
+    if time.time() > deadline:
+        return (None, None)
+    if _JOB_PROC is None:
+        _JOB_PROC = Proc(vlib.VH["release"])
+    fail = fail07 if prop == "C07" else (lambda r, ask, ws=True: fail17(r))
+    ask = _JOB_PROC.ask
+    r = parse_rt3(ask(rt3_line(doc, opts)), doc, opts)
+    s = shrink_case(r, fail, ask)
+    return (s.doc, s.opts)
+
+
 # name -> (predicate(case, fail) -> bool, where the predicate is evaluated)
 def _c(f):
     return lambda case, fail: f(case)
@@ -1320,7 +1350,8 @@ def _c(f):
 
 CLASSES = {
     "wrap_marker_line_start": lambda case, fail: p_wrap(case, [b"-", b"+", b"=", b"1."], fail),
-    "wrap_tilde_fence_line_start": lambda case, fail: p_wrap(case, [b"~~~"], fail),
+    # `~~~` is never escaped; "```" is only written bare inside a code span, whose content is wrapped too
+    "wrap_tilde_fence_line_start": lambda case, fail: p_wrap(case, [b"~~~", b"```"], fail),
     "wrap_html_line_start": lambda case, fail: p_wrap(case, [b"<"], fail),
     "tilde_fence_text": _c(p_tilde_fence_text),
     "table_delim_row_text": _c(p_table_delim_row_text),
@@ -1365,7 +1396,7 @@ CLASSES = {
     "loose_single_block_list": _c(p_loose_single_block_list),
     "tight_item_blank_line_in_quote": _c(p_tight_item_blank_line_in_quote),
     "amp_before_text_node": _c(p_amp_before_text_node),
-    "title_newline_space": _c(p_title_newline_space),
+    "title_multiline": _c(p_title_multiline),
     "emph_in_emph_same_delim": _c(p_emph_in_emph_same_delim),
     "table_cell_title_newline": _c(p_table_cell_title_newline),
     "autolink_html_block_start": _c(p_autolink_html_block_start),
@@ -1411,6 +1442,9 @@ def run(c, prop, tier):
     known = {e["class"]: e for e in c.known}
     rng = c.rng
     n = 6000 if tier == "quick" else 120000
+    if tier != "quick" and os.environ.get("VERIF_N", "").isdigit():
+        # development knob: an intermediate size; the registered tiers never set it
+        n = int(os.environ["VERIF_N"])
     cases, used = [], []
     for _ in range(n):
         d, u = gen_doc(rng)
@@ -1476,17 +1510,27 @@ def run(c, prop, tier):
             c.problem("correspondence", "rt_collapse_shape", f"extracted collapse_nested_strong disagrees with the Python mirror: {o[:80]}", {"line": f"rt_collapse_shape {r.t1}"})
             break
     c.cov["correspondences"]["collapse_nested_strong (extracted) = python mirror, on parser trees with nested strong"] = len(ns)
-    # shrink, then classify
+    # shrink (in worker processes, each with its own harness process; the result does not depend on the
+    # scheduling: shrink_case is a function of the case), then classify
     t0 = time.time()
     budget_s = 70 if tier == "quick" else 3000
     shrunk = []
     unshrunk = 0
-    for r, u in failing:
-        if time.time() - t0 > budget_s:
+    jobs = [(prop, r.doc, r.opts, t0 + budget_s) for r, _ in failing]
+    if jobs:
+        import multiprocessing
+        with multiprocessing.get_context("fork").Pool(max(1, min(vlib.NPROC, 12))) as pool:
+            res = pool.map(_shrink_job, jobs, chunksize=8)
+    else:
+        res = []
+    for (r, u), (sd, so) in zip(failing, res):
+        if sd is None:
             unshrunk += 1
             s = r
         else:
-            s = shrink_case(r, fail, ask)
+            s = parse_rt3(ask(rt3_line(sd, so)), sd, so)
+            if not fail(s, ask):     # cannot happen (the harness is deterministic); keep the original then
+                s = r
         shrunk.append((r, s, u))
     f1 = lambda rr: fail(rr, ask)
     cls_lines = [f"rt_classes {s.opts.get('ol_width', 0)} {s.t1}" for _, s, _ in shrunk if s.t1 and s.t1 != "-"]
